@@ -6,6 +6,8 @@ CONSTANTS
  FaultSets <- AnyOneFault
  Checked = FALSE
  FlagFirst = TRUE
+ PipeCap = 99
+ JoinChecked = FALSE
 INVARIANT AtMostOnce
 INVARIANT ReturnedImpliesAll
 INVARIANT NoLossAtSet
